@@ -42,7 +42,7 @@ def triage(res):
 
 
 def setup():
-    for kind in ("dbg", "rel", "asan", "cli-dbg", "cli-rel"):
+    for kind in ("dbg", "rel", "asan", "cli-dbg", "cli-rel", "cli-asan"):
         build(kind)
     return 0
 
@@ -335,6 +335,12 @@ def c14(tier, seed):
         for kind, cnt in plan:
             naija = build(kind)
             res.absorb(run_engine(dbg, "ship", n(cnt), seed, {"stage": "cli", "naija": naija, "scratch": scratch}, build_name=kind, timeout_case=120))
+        # the shipped binary under AddressSanitizer with the arena/pool lifetime poisoning hooks: a read
+        # of scratch memory after its phase has given it back traps even when the output is unaffected
+        asan_cli = build("cli-asan")
+        res.absorb(run_engine(dbg, "ship", n(300 if tier == "quick" else 6000), seed + 17, {"stage": "cli", "naija": asan_cli, "scratch": scratch}, build_name="cli-asan", timeout_case=180))
+        asan = build("asan")
+        res.absorb(run_engine(asan, "ship", n(300 if tier == "quick" else 6000), seed + 23, {"stage": "playground", "scratch": scratch}, build_name="asan-playground", timeout_case=180))
         res.absorb(run_engine(dbg, "ship", n(seqs), seed, {"stage": "playground", "scratch": scratch}, build_name="dbg-playground", timeout_case=120))
         if tier == "thorough":
             rel = build("rel")
@@ -343,7 +349,8 @@ def c14(tier, seed):
         shutil.rmtree(scratch, ignore_errors=True)
     triage(res)
     return finish("C14", tier, seed, "exploration", res,
-                  "stage cli: generated programs (profiles core/mem/dead/scope/array; about 4 in 12 made to fail: undeclared variable, syntax error, lexical errors, unbounded recursion, plus large allocations that force commit/decommit) each run through the real `naija` binary as a file, with --eval and on standard input (`naija -`); stdout must equal byte for byte what the library pipeline with separate arenas computes (rendered checker warnings, the shout lines, the rendered runtime error; for Stack overflow everything before the runtime diagnostic), the exit status must be 0 exactly when nothing failed, and a rejected text must not print its leading marker. Stage playground: a native derivation of wasm/src/lib.rs (text of the file, wasm-only lines dropped) runs sequences of 2-9 such programs back to back in one process, re-initialising the scratch arenas per run as the playground does; every element must equal its own result in a fresh process, and a second run in the fresh process must equal the first. Non-trivial (cli) = the program is rejected, or exercises at least one frame reset and prints at least two values; (playground) = the sequence contains a failing element followed by a passing one; distinct = hash of the text(s)",
+                  "stage cli: generated programs (profiles core/mem/dead/scope/array; about 4 in 12 made to fail: undeclared variable, syntax error, lexical errors, unbounded recursion, plus large allocations that force commit/decommit) each run through the real `naija` binary as a file, with --eval and on standard input (`naija -`); stdout must equal byte for byte what the library pipeline with separate arenas computes (rendered checker warnings, the shout lines, the rendered runtime error; for Stack overflow everything before the runtime diagnostic), the exit status must be 0 exactly when nothing failed, and a rejected text must not print its leading marker. Stage playground: a native derivation of wasm/src/lib.rs (text of the file, wasm-only lines dropped) runs sequences of 2-9 such programs back to back in one process, re-initialising the scratch arenas per run as the playground does; every element must equal its own result in a fresh process, and a second run in the fresh process must equal the first. Non-trivial (cli) = the program is rejected, or exercises at least one frame reset and prints at least two values; (playground) = the sequence contains a failing element followed by a passing one; distinct = hash of the text(s)"
+                  + " Additions: every fourth text is also delivered on standard input in 2-4 bursts cut at arbitrary byte offsets; 38 edge texts run first (empty, blank, comment-only, no final line break, CRLF, lone quote, numbers at the edges of the formatter printed directly/nested/interpolated, five child-process scripts); two in five generated texts use CRLF or a lone CR as line break (compared with the library run of the same bytes); the same stage is repeated with the CLI built with AddressSanitizer and the arena/pool lifetime-poisoning hooks (build cli-asan: same sources and wiring, symbols kept, no LTO), where any sanitizer report is a violation `cli-asan|kind|frames` even if the output is right, and the playground stage is repeated on the ASan worker.",
                   ["the implicit no-argument stdin form of the CLI never reaches run_stdin (clap's arg_required_else_help prints usage, exit 2); `naija -` is the stdin mode compared",
                    "the playground is exercised through a native derivation of wasm/src/lib.rs (no wasm32 target here): WasmVirtualMemory and the 512 KiB wasm stack budget are not executed",
                    "which expression of a recursion cycle trips the native stack budget depends on frame sizes, so for Stack overflow endings only the text before the runtime diagnostic and the presence of the diagnostic are compared"],
